@@ -38,6 +38,11 @@ pub trait Be: 'static {
     fn vbuild(_via: &str, data: &[Self::T]) -> V<Self> {
         <V<Self> as BaseVector<Self::T>>::from_array(data)
     }
+    /// Deserialize(Serialize(m)) through serde_json ("serde_json") or bincode ("serde_bincode"); None when the
+    /// back end is not exercised through serde here
+    fn roundtrip(_m: &Self::M, _fmt: &str) -> Option<Result<Self::M, String>> {
+        None
+    }
     /// `DenseMatrix::iter()` consumed through nth / skip / step_by / count / last / size_hint (after k calls of
     /// next); None for back ends without `iter`
     fn iter_mode(_m: &Self::M, _mode: &str, _k: usize) -> Option<Vec<f64>> {
@@ -340,6 +345,9 @@ impl<B: Be> File<B> {
             "get" | "set" | "add_element_mut" | "sub_element_mut" | "mul_element_mut" => ia.len() >= 2 && ok(ia[0], ma.r) && ok(ia[1], ma.c),
             "get_row" | "get_row_as_vec" | "copy_row_as_vec" => ia.len() >= 1 && ok(ia[0], ma.r),
             "get_col_as_vec" | "copy_col_as_vec" => ia.len() >= 1 && ok(ia[0], ma.c),
+            "copy_row_into" => ia.len() >= 3 && ok(ia[0], ma.r) && ia[1] >= ma.c as i64,
+            "copy_col_into" => ia.len() >= 3 && ok(ia[0], ma.c) && ia[1] >= ma.r as i64,
+            "norm_neg" | "v_norm_neg" => ma.r * ma.c >= 1 && ma.r * ma.c <= 4 && ma.maxabs <= 20.0,
             "slice" => ia.len() >= 4 && ok(ia[0], ma.r) && ok(ia[1], ma.r) && ia[0] <= ia[1] && ok(ia[2], ma.c) && ok(ia[3], ma.c) && ia[2] <= ia[3],
             "take" => ia.len() >= 1 && call.iv.iter().all(|&x| ok(x, if ia[0] == 0 { ma.r } else { ma.c })),
             "v_get" | "v_set" | "v_add_element_mut" | "v_sub_element_mut" | "v_mul_element_mut" => ia.len() >= 1 && ok(ia[0], ma.c),
@@ -774,6 +782,25 @@ impl<B: Be> File<B> {
                 Res::Ints(vec![d.powi(ia(0) as i32).round()])
             }
             // p-norm of non-integer order ia[0] / 2
+            // p-norm of negative order -ia[0] / 2
+            "norm_neg" => Res::Fx(vec![f::<B>(ma!().norm(-raw(0) / B::T::from_i64x(2)))]),
+            "v_norm_neg" => Res::Fx(vec![f::<B>(va!().norm(-raw(0) / B::T::from_i64x(2)))]),
+            "serde_json" | "serde_bincode" => match B::roundtrip(ma!(), &call.op) {
+                Some(Ok(m)) => Res::M(m),
+                Some(Err(msg)) => panic!("serde round trip failed: {}", msg),
+                None => panic!("{}", MALFORMED),
+            },
+            // copy_row_as_vec / copy_col_as_vec into a caller buffer of length ia[1] pre-filled with ia[2]
+            "copy_row_into" => {
+                let mut buf = vec![raw(2); us(ia(1))];
+                ma!().copy_row_as_vec(idx(0), &mut buf);
+                Res::Ints(fv(&buf))
+            }
+            "copy_col_into" => {
+                let mut buf = vec![raw(2); us(ia(1))];
+                ma!().copy_col_as_vec(idx(0), &mut buf);
+                Res::Ints(fv(&buf))
+            }
             "norm_half" => Res::Fx(vec![f::<B>(ma!().norm(raw(0) / B::T::from_i64x(2)))]),
             "v_norm_half" => Res::Fx(vec![f::<B>(va!().norm(raw(0) / B::T::from_i64x(2)))]),
             "max_diff" => Res::Ints(vec![f::<B>(ma!().max_diff(mb!()))]),
